@@ -91,3 +91,35 @@ Definition chk_copier_run (fixd : bool)
   let s := copier_run bs mx total sparse fixd ranges (singles sched) in
   option_eqb cerr_eqb (fst (copier_outcome s sc dc)) out && Bool.eqb (snd (copier_outcome s sc dc)) closed
   && zlist_eqb (copier_dst s) dst && list_eqb pair_eqb (p_sent (m_pio (c_m s))) sent.
+
+(* _process_ranges of the real server handler (K = _MAX_SPARSE_RANGES): extents, offset, length,
+   reply (None = SSH_FX_EOF) *)
+Definition ranges_reply_eqb (a b : option (list (Z * Z) * bool)) : bool :=
+  match a, b with
+  | None, None => true
+  | Some (r1, e1), Some (r2, e2) => list_eqb pair_eqb r1 r2 && Bool.eqb e1 e2
+  | _, _ => false
+  end.
+
+Definition chk_server_ranges (c : nat * list (Z * Z) * Z * Z * option (list (Z * Z) * bool)) : bool :=
+  let '(K, ext, off, len, got) := c in ranges_reply_eqb (server_ranges K ext off len) got.
+
+(* client iteration from an arbitrary start offset against the real server handler *)
+Definition chk_client_ranges_from (c : nat * list (Z * Z) * Z * Z * list (Z * Z)) : bool :=
+  let '(K, ext, off, len, got) := c in
+  list_eqb pair_eqb (client_ranges (S (length ext)) (server_ranges K ext) off len (off + len)) got.
+
+(* _pflags_to_flags *)
+Definition chk_pflags_to_flags (c : Z * (Z * Z)) : bool :=
+  let '(pflags, got) := c in pair_eqb (pflags_to_flags pflags) got.
+
+(* SFTPServer.open on a real file: pflags, content before (None = absent), content after the open
+   (None = the open raised) *)
+Definition chk_open_v3 (c : Z * option bytes * option bytes) : bool :=
+  let '(pflags, before, got) := c in
+  option_eqb zlist_eqb (posix_open (server_open_v3 pflags) before) got.
+
+(* SFTPServer.open56: desired access, flags *)
+Definition chk_open_v56 (c : Z * Z * option bytes * option bytes) : bool :=
+  let '(acc, fl, before, got) := c in
+  option_eqb zlist_eqb (posix_open (server_open_v56 acc fl) before) got.
